@@ -30,7 +30,7 @@ func (rd *reader) sticky(rule string) {
 		nCallers++
 		ok, why := true, "advanceFrame is called under [readErr == nil]; its error is tested and a non-nil error is stored to readErr before the function returns or loops"
 		nCalls := 0
-		c.explore(rule, g, core.Opts{Unroll: 0, RecordLoads: true}, func(p *core.Path) {
+		c.explore(rule, g, core.Opts{Unroll: 0, RecordLoads: true, Inline: rd.inl()}, func(p *core.Path) {
 			var cur *core.Term // current content of readErr as far as this path knows
 			for i := range p.Events {
 				ev := &p.Events[i]
@@ -39,7 +39,7 @@ func (rd *reader) sticky(rule string) {
 					cur = ev.Val
 				case ev.Kind == core.EvStore && isFieldAddr(ev.Addr, rd.readErr):
 					cur = ev.Val
-				case callsStatic(ev, rd.advance) && ev.Depth == 0:
+				case callsStatic(ev, rd.advance):
 					nCalls++
 					cc := cur
 					if cc == nil || !(cc.IsNil() || hasLit(p, ev.NLits, true, func(t *core.Term) bool { return isEqNil(t, func(y *core.Term) bool { return y == cc }) })) {
@@ -84,7 +84,7 @@ func (rd *reader) sticky(rule string) {
 			continue
 		}
 		ok, why := true, "every store to readErr happens while the value found at entry is known nil, or replaces a value stored earlier in the same call"
-		c.explore(rule, g, core.Opts{Unroll: 0, RecordLoads: true}, func(p *core.Path) {
+		c.explore(rule, g, core.Opts{Unroll: 0, RecordLoads: true, Inline: rd.inl()}, func(p *core.Path) {
 			var cur *core.Term
 			curFromStore := false
 			for i := range p.Events {
@@ -110,7 +110,7 @@ func (rd *reader) sticky(rule string) {
 	// (c) NextReader returns the sticky error and no reader with it
 	{
 		ok, why := true, "NextReader returns (noFrame, nil, readErr) whenever readErr is non-nil; a reader is returned only with a nil error"
-		c.explore(rule, rd.nextReader, core.Opts{Unroll: 0, RecordLoads: true}, func(p *core.Path) {
+		c.explore(rule, rd.nextReader, core.Opts{Unroll: 0, RecordLoads: true, Inline: rd.inl()}, func(p *core.Path) {
 			if p.End != core.EndReturn || len(p.Results) != 3 {
 				return
 			}
